@@ -590,9 +590,14 @@ except Exception:  # pragma: no cover
 
 
 class RtCheck(_Sched):
-    """rt_check(rt_factor, rt_start, rt_strict, sim): in real-time mode, with delta = seconds passed - rt_factor *
-    time of the last step: RuntimeError IFF rt_strict and delta > 0; a warning IFF not rt_strict and delta > 0;
-    nothing is written (rt_strict changes nothing else)"""
+    """rt_check(rt_factor, rt_start, rt_strict, sim) after the step for time t, `passed` seconds after the start:
+      * on time (passed < rt_factor * t; the boundary itself is left open)  =>  no report of any kind;
+      * late beyond doubt (passed > rt_factor * (t + 1): even the next period has begun)  =>  reported;
+      * a report is a RuntimeError with rt_strict and exactly one warning without it -- never the other kind;
+      * nothing is written in either mode (rt_strict changes nothing else); outside real-time mode: silent.
+    Which instant between rt_factor * t and rt_factor * (t + 1) is the deadline is NOT fixed by the property (the
+    code uses rt_factor * t, which makes the step for time 0 always late: known finding F17), so the contract leaves
+    that band open: it must keep holding if the deadline is moved inside it."""
     target = "mosaik.scheduler.rt_check"
     property_ids = ["C17"]
     configure_small = None
@@ -609,15 +614,24 @@ class RtCheck(_Sched):
     def requires(self, A):
         return And(static_ok(self._M), typing(self._M, H(self._h0)), *([self._rt > 0] if self._rt is not None else []))
 
-    def _delta(self, A):
+    def _band(self, A):
+        """(on_time, late) -- for whatever the clock shows if the path never read it"""
         now = self._p.ghost.get("clock")
+        if now is None:
+            now = z3.Real("clock!unread")
         a = self._M.alg
-        return None if now is None else (now - self._start) - self._rt * z3.ToReal(a.time(self._h0["LS"][A.sim]))
+        t = z3.ToReal(a.time(self._h0["LS"][A.sim]))
+        passed = now - self._start
+        return passed < self._rt * t, passed > self._rt * (t + 1)
 
     def raise_allowed(self, A, e):
         if e.cls != "RuntimeError" or self._rt is None:
             return None
-        return And(self._strict, self._delta(A) > 0)
+        on_time, _ = self._band(A)
+        return And(self._strict, Not(on_time))
+
+    def raise_post(self, A, e):
+        return And(self._p.ghost.get("logged", []).count("warning") == 0, frame(self._M, self._h0, self.cur(), {}))
 
     def split_post(self, A, result):
         warned = self._p.ghost.get("logged", []).count("warning")
@@ -625,9 +639,10 @@ class RtCheck(_Sched):
         if self._rt is None:
             out["silent_outside_real_time"] = warned == 0
             return out
-        d = self._delta(A)
-        out["no_error_unless_strict_and_behind"] = Not(And(self._strict, d > 0))
-        out["warning_iff_behind_and_not_strict"] = (And(Not(self._strict), d > 0) if warned else Not(And(Not(self._strict), d > 0)))
+        on_time, late = self._band(A)
+        out["silent_when_on_time"] = Implies(on_time, warned == 0)
+        out["late_beyond_doubt_is_reported"] = Implies(late, And(Not(self._strict), warned == 1))
+        out["a_warning_only_without_rt_strict"] = Implies(self._strict, warned == 0)
         out["at_most_one_warning"] = warned <= 1
         return out
 
@@ -651,7 +666,7 @@ def _rt_native_world(depth, rt_factor, until=5):
 def _rtcheck_search(self, budget):
     for rt in (None, 0.5):
         for strict in (False, True):
-            for passed, last in ((1.0, 2), (1.0, 1), (1.5, 2), (0.0, 0), (0.25, 0)):
+            for passed, last in ((1.0, 2), (1.0, 1), (1.5, 2), (0.0, 0), (0.25, 0), (0.75, 0), (2.5, 2), (0.4, 1), (0.9, 2)):
                 yield {"rt_factor": rt, "rt_strict": strict, "passed": passed, "last_step": last}
 
 
@@ -677,11 +692,17 @@ def _rtcheck_call(self, m):
         scheduler.perf_counter = real
         logger.remove(hid)
         w.loop.close()
-    behind = bool(m["rt_factor"]) and (m["passed"] - m["rt_factor"] * m["last_step"]) > 0
-    exp_raise, exp_warn = behind and m["rt_strict"], behind and not m["rt_strict"]
-    ok = raised == exp_raise and (len(msgs) == 1) == exp_warn and len(msgs) <= 1
+    rt = m["rt_factor"]
+    on_time = (not rt) or m["passed"] < rt * m["last_step"]
+    late = bool(rt) and m["passed"] > rt * (m["last_step"] + 1)
+    reported = raised or bool(msgs)
+    ok = len(msgs) <= 1 and not (raised and msgs) and not (on_time and reported) and not (late and not reported) \
+        and not (raised and not m["rt_strict"]) and not (msgs and m["rt_strict"])
+    exp_raise, exp_warn = ("-" if on_time else "?"), ("-" if on_time else "?")
+    if late:
+        exp_raise, exp_warn = m["rt_strict"], not m["rt_strict"]
     return ok, (f"rt_check(rt_factor={m['rt_factor']}, strict={m['rt_strict']}) {m['passed']} s after the start, last step "
-                f"{m['last_step']}: raised={raised} (expected {exp_raise}), warnings={len(msgs)} (expected {int(exp_warn)})")
+                f"{m['last_step']}: raised={raised} (expected {exp_raise}), warnings={len(msgs)} (expected {exp_warn}; '-' none, '?' either: inside the open band)")
 
 
 RtCheck.native_search = _rtcheck_search
